@@ -1,0 +1,74 @@
+//go:build verif
+
+package channels
+
+import (
+	"encoding/json"
+	"fmt"
+	"os"
+	"path/filepath"
+	"sync"
+
+	datatransfer "github.com/filecoin-project/go-data-transfer/v2"
+)
+
+// Verification hook (build tag "verif" only): when VERIF_TRACE names a directory, every event the
+// channel state machines announce is appended, with the resulting state as seen through the public
+// accessors, to <dir>/trace-<pid>.ndjson. Without the tag this file is not compiled.
+
+var verifTraceState struct {
+	once sync.Once
+	mu   sync.Mutex
+	f    *os.File
+	seq  uint64
+}
+
+type verifTraceLine struct {
+	Pid       int    `json:"pid"`
+	Seq       uint64 `json:"seq"`
+	Chid      string `json:"chid"`
+	Self      string `json:"self"`
+	Initiator string `json:"initiator"`
+	Ev        string `json:"ev"`
+	Status    string `json:"status"`
+	Ip        bool   `json:"ip"`
+	RpView    bool   `json:"rpView"`
+	Queued    uint64 `json:"queued"`
+	Sent      uint64 `json:"sent"`
+	Received  uint64 `json:"received"`
+	QIdx      int64  `json:"qIdx"`
+	SIdx      int64  `json:"sIdx"`
+	RIdx      int64  `json:"rIdx"`
+	Limit     uint64 `json:"limit"`
+	ReqFin    bool   `json:"reqFin"`
+	NV        int    `json:"nv"`
+	NR        int    `json:"nr"`
+}
+
+func verifTrace(evt datatransfer.Event, st datatransfer.ChannelState) {
+	verifTraceState.once.Do(func() {
+		dir := os.Getenv("VERIF_TRACE")
+		if dir == "" {
+			return
+		}
+		f, err := os.OpenFile(filepath.Join(dir, fmt.Sprintf("trace-%d.ndjson", os.Getpid())), os.O_CREATE|os.O_APPEND|os.O_WRONLY, 0o644)
+		if err == nil {
+			verifTraceState.f = f
+		}
+	})
+	if verifTraceState.f == nil {
+		return
+	}
+	verifTraceState.mu.Lock()
+	defer verifTraceState.mu.Unlock()
+	verifTraceState.seq++
+	l := verifTraceLine{
+		Pid: os.Getpid(), Seq: verifTraceState.seq, Chid: st.ChannelID().String(), Self: st.SelfPeer().String(), Initiator: st.ChannelID().Initiator.String(),
+		Ev: datatransfer.Events[evt.Code], Status: datatransfer.Statuses[st.Status()], Ip: st.InitiatorPaused(), RpView: st.ResponderPaused(),
+		Queued: st.Queued(), Sent: st.Sent(), Received: st.Received(), QIdx: st.QueuedCidsTotal(), SIdx: st.SentCidsTotal(), RIdx: st.ReceivedCidsTotal(),
+		Limit: st.DataLimit(), ReqFin: st.RequiresFinalization(), NV: len(st.Vouchers()), NR: len(st.VoucherResults()),
+	}
+	if b, err := json.Marshal(l); err == nil {
+		_, _ = verifTraceState.f.Write(append(b, '\n'))
+	}
+}
